@@ -656,6 +656,21 @@ func (b *Builder) MarkFileAsChangedOrRemoved(path string) {
 	b.opts.changedOrRemovedFiles = append(b.opts.changedOrRemovedFiles, path)
 }
 
+// MarkFailed records that the caller could not add all documents (for example
+// because reading the source failed). A following Finish then only cleans
+// up: it removes the shards written so far and installs nothing, so the
+// previously installed index stays as it is. The first error is kept.
+func (b *Builder) MarkFailed(err error) {
+	if err == nil {
+		return
+	}
+	b.errMu.Lock()
+	defer b.errMu.Unlock()
+	if b.buildError == nil {
+		b.buildError = err
+	}
+}
+
 // Finish creates a last shard from the buffered documents, and clears
 // stale shards from previous runs. This should always be called, also
 // in failure cases, to ensure cleanup.
